@@ -29,6 +29,13 @@ theorem roundtrip_consumes_exactly (f : Frame) (hw : wf f = true) :
   have := parseBytes_ser f hw []
   simpa using this
 
+/-- (1'') Error and simple-string replies frame correctly whatever bytes their payload carries
+    (CR/LF included): they parse back as one frame, payload with CR/LF replaced by spaces. -/
+theorem line_replies_always_frame (b rest : Bytes) :
+    parseBytes (ser (.error b) ++ rest) = .ok (.error (sanitizeLine b)) rest ∧
+    parseBytes (ser (.simple b) ++ rest) = .ok (.simple (sanitizeLine b)) rest :=
+  line_reply_frames b rest
+
 /-- (2) A frame or an error, once reported for a buffer, is reported identically when more
     bytes have arrived; only "need more data" may change. -/
 theorem prefix_stable (d e : Bytes) :
@@ -95,6 +102,7 @@ theorem reserve_bounded (d : Bytes) : reserveOf true (d.length + 1) d ≤ 2 * d.
 /-- Tie to the code: the regenerated switches say that /repo's parser is the fixed one, so
     (3) and (5) speak about the current tree.  Fails to check if either repair is absent. -/
 theorem tree_has_ping_fix : Gen.pingFix = true := by decide
+theorem tree_sanitizes_lines : Gen.lineSanitized = true := by decide
 theorem tree_caps_reserve : Gen.reserveCapped = true := by decide
 
 /-! ### Witnesses: the two statements are false for the parser as pinned -/
